@@ -298,7 +298,8 @@ def ap_create_next_state():
     return dict(
     requires=[
         C("wf", "next_state.coins.wf() && (is_tip_906 ==> counts_ok(next_state.coins@)) && is_tip_906 == spec_tip906(next_state) && origin_ok(next_state.coins@.coins)"),
-        C("wellformed", "forall|q: int| 0 <= q < transactions@.len() ==> spec_well_formed(#[trigger] transactions@[q])"),
+        C("wellformed", "forall|q: int| 0 <= q < transactions@.len() ==> spec_well_formed(#[trigger] transactions@[q]) && cov_weights_fit(transactions@[q])",
+          note="established by load_relevant_coins: bounds on outputs and fee; the covenants' weights fit u128 together (Transaction::weight sums them unchecked; fix: covenant weights that overflow u128)"),
         C("rel", "rel_consistent(transactions@, relevant_coins@)"),
         C("fees_fit", "next_state.fee_pool.0 + next_state.tips.0 + fsum(transactions@, fee_of()) <= u128::MAX",
           note="C09 envelope: fee pool + tips + the batch's fees fit in u128 (MEL supply <= 2^127)"),
@@ -333,7 +334,7 @@ def ap_load_relevant_coins():
     return dict(
         requires=[C("wf", "this.coins.wf()")],
         ensures=[C("rel", "res is Ok ==> rel_of(*this, txx@, res->Ok_0@)", "C02", "C01", "C19"),
-                 C("wellformed", "res is Ok ==> forall|q: int| 0 <= q < txx@.len() ==> spec_well_formed(#[trigger] txx@[q]) && outputs_fit(txx@[q])", "C02", "C09"),
+                 C("wellformed", "res is Ok ==> forall|q: int| 0 <= q < txx@.len() ==> spec_well_formed(#[trigger] txx@[q]) && outputs_fit(txx@[q]) && cov_weights_fit(txx@[q])", "C02", "C09", "C05"),
                  C("nodup", "res is Ok ==> inputs_distinct(txx@)", "C02"),
                  C("err", "res is Err ==> res->Err_0 is MalformedTx || res->Err_0 is NonexistentCoin", "C02", char=True)])
 
@@ -462,6 +463,16 @@ DEP_TX = _ct[0] if _ct else "/nonexistent/melstructs-0.3.3/src/transaction.rs"
 def tx_is_well_formed():
     return dict(ensures=[C("wf", "res == spec_well_formed(*self)", "C02", "C09", "C01",
                            note="the bound every later overflow argument starts from: at most 255 outputs, every output value and the fee at most MAX_COINVAL = 2^120")])
+WEIGHER = "forall|c: &[u8]| #[trigger] call_requires(cov_to_weight, (c,))"
+WEIGHS = "forall|c: &[u8], w: u128| #[trigger] call_ensures(cov_to_weight, (c,), w) ==> w as nat == spec_cov_weight_b(c@)"
+def tx_weight():
+    return dict(requires=[C("fit", "cov_weights_fit(*self)", note="`Iterator::sum` over the covenants' weights is unchecked u128 addition: established by load_relevant_coins' guard (fix: covenant weights that overflow u128)"),
+                          C("weigher", WEIGHER, note="the closure passed is total"), C("weighs", WEIGHS, note="... and is a covenant weigher (the one call site passes `|c| covenant_weight_from_bytes(c)`)")],
+                ensures=[C("weight", "res as nat == spec_tx_weight(*self)", "C05",
+                           note="C05's weight formula, proved from the registry source: serialized size + covenant weights + 1000 per output - 1000 per input, saturating, never below zero")])
 def tx_base_fee():
-    return dict(ensures=[C("fee", "ballast == 0 ==> res.0 == spec_base_fee(*self, fee_multiplier)", "C05",
+    return dict(requires=[C("fit", "cov_weights_fit(*self)"), C("weigher", WEIGHER), C("weighs", WEIGHS)],
+                ensures=[C("fee", "ballast == 0 ==> res.0 == spec_base_fee(*self, fee_multiplier)", "C05",
                            note="minimum fee = floor(min(weight x multiplier, 2^128-1) / 65536): saturating product, then >> 16")])
+
+COV_WEIGHT_STUB = "#[verifier::external_body] pub fn covenant_weight_from_bytes(b: &[u8]) -> (r: u128) ensures r as nat == spec_cov_weight_b(b@) { unimplemented!() }   // contract proved in unit codec"
